@@ -15,6 +15,7 @@ mod patch_w;
 mod engine_w;
 mod cli_w;
 mod proto_w;
+mod bisync_w;
 #[global_allocator]
 static GLOBAL: proto_w::Tracking = proto_w::Tracking;
 /// the CLI's modules, #[path]-included unedited from the tree under check
@@ -88,6 +89,9 @@ fn search(contract: &str, seed: u64, budget: u64) -> i32 {
         if r != 0 { return r; }
         return proto_w::search_codec();
     }
+    if c.ends_with("run_bisync") || c == "bisync" || c.ends_with("apply") || c.ends_with("copy_atomic") || c.contains("Archive::") {
+        return bisync_w::search(c, false);
+    }
     if c.starts_with("run_") || c.starts_with("cli") {
         return cli_w::search(c, seed, false);
     }
@@ -112,6 +116,8 @@ fn run(w: &str) -> i32 {
         "glob" => glob_w::run(w),
         "patch" => patch_w::run(w),
         "cli" => cli_w::run_w(w),
+        "bisync" => bisync_w::run_w(w),
+        "bisync-trace" => bisync_w::run_trace(w),
         "header" => proto_w::run_header(w),
         "codec" => proto_w::run_codec(w),
         "pair" => engine_w::run_pair(w),
@@ -132,6 +138,7 @@ fn twin(name: &str, seed: u64, budget: u64) -> i32 {
     match name {
         "is_excluded" => twins::is_excluded(seed, budget),
         "cli_chain" => cli_w::search("cli", seed, true),
+        "bisync_histories" => bisync_w::search("bisync", true),
         "signature_generate" => engine_w::twin_signature_generate(seed, budget),
         "signature_structure" => engine_w::twin_signature_structure(seed, budget),
         "signature_table" => engine_w::twin_signature_table(seed, budget),
